@@ -135,8 +135,12 @@ def equality_table(lib, f, fields, disc=None, disc_values=(None,), other=None):
     fl = sorted(fields)
     full = len(fl) <= 6
     for dv in disc_values:
-        for db in ((dv, other) if disc else (None,)):
-            if full:
+        # the second operand: the same kind, every other kind and a value that is no kind at all (operands of two different kinds
+        # with all fields alike - all 0, all 1 - are where a comparison that looks at the payload first goes wrong)
+        for db in (([dv] + [x_ for x_ in list(disc_values) + [other] if x_ != dv]) if disc else (None,)):
+            if disc and db != dv:
+                combos = [tuple(0 for _ in range(2 * len(fl))), tuple(1 for _ in range(2 * len(fl)))]
+            elif full:
                 combos = itertools.product((0, 1), repeat=2 * len(fl))
             else:
                 combos = [tuple(0 for _ in range(2 * len(fl)))] + [tuple(1 if j == i else 0 for j in range(2 * len(fl))) for i in range(2 * len(fl))]
@@ -165,7 +169,17 @@ def equality_table_interp(lib, f, cls, fields, disc=None, disc_values=(None,), o
     from .aeval import AEval, AObj, CxxModule, Raised, cxx_object
     mod = CxxModule(lib, ['ace_time::'])
     ftype = {n: (t or '') for n, t, _x in lib.fields(cls)}
-    markers = [AObj({}, oid='target0', cls='marker'), AObj({}, oid='target1', cls='marker')]
+    # what a member of pointer type points to: two zone records with different ids (a comparison may look into them - the id of
+    # the zone - as well as at their addresses), else two opaque objects
+    markers = []
+    for k_ in (0, 1):
+        try:
+            m_ = cxx_object(lib, 'ace_time::extended::ZoneInfo')
+            m_.attrs['zoneId'] = 70001 + k_
+            m_.oid = 'target%d' % k_
+        except Exception:
+            m_ = AObj({}, oid='target%d' % k_, cls='marker')
+        markers.append(m_)
 
     def fill(o, v):
         for k_, x in list(o.attrs.items()):
@@ -195,8 +209,12 @@ def equality_table_interp(lib, f, cls, fields, disc=None, disc_values=(None,), o
     fl = sorted(fields)
     full = len(fl) <= 6
     for dv in disc_values:
-        for db in ((dv, other) if disc else (None,)):
-            if full:
+        # the second operand: the same kind, every other kind and a value that is no kind at all (operands of two different kinds
+        # with all fields alike - all 0, all 1 - are where a comparison that looks at the payload first goes wrong)
+        for db in (([dv] + [x_ for x_ in list(disc_values) + [other] if x_ != dv]) if disc else (None,)):
+            if disc and db != dv:
+                combos = [tuple(0 for _ in range(2 * len(fl))), tuple(1 for _ in range(2 * len(fl)))]
+            elif full:
                 combos = itertools.product((0, 1), repeat=2 * len(fl))
             else:
                 combos = [tuple(0 for _ in range(2 * len(fl)))] + [tuple(1 if j == i else 0 for j in range(2 * len(fl))) for i in range(2 * len(fl))]
@@ -208,6 +226,8 @@ def equality_table_interp(lib, f, cls, fields, disc=None, disc_values=(None,), o
                     res = 1 if AEval.truth(r) else 0
                 except Raised:
                     res = None
+                except (KeyError, IndexError, TypeError) as x_:
+                    raise AnalysisError('%s: the interpretation of operator== reads what the abstract operands do not hold (%s: %s)' % (f.loc, type(x_).__name__, x_))
                 rows.append((dv, db, {n: (combo[2 * i], combo[2 * i + 1]) for i, n in enumerate(fl)}, res))
     return rows, ''
 
